@@ -119,6 +119,7 @@ var c10HostileKeys = []string{
 	".", "..", "a/../b", "../bk2/k", "../bk2/secret", "../../etc", "a/./b", "a//b", "/lead", ".hidden", "..hidden", "a\\b", "a\\..\\b", "%2e%2e/x", "%2e%2e%2fbk2%2fk",
 	"_meta", "bucket/bk2", "metadata", "buckets", "buckets/bk2/k", ".modtime-resolution", "metadata/bk1/x", "k", "k/sub", "k/sub/deep", "kk", "secret",
 	"x/../../bk2/secret", "...", "a/..", "a/../..", "..\\bk2\\k", "con", "sp ace", "ü/../ö", "dir_file", "dir\\file", "dir/file", "dir_file_x", "k_sub", "k/sub_deep", "k_sub/deep",
+	"k/.", "k/x/..", "secret/.", "secret/x/..", "dir/file/.", "dir/file/y/..", "dir/.", "dir/./file", "./k",
 }
 
 func runC10(c *Ctx) {
@@ -251,6 +252,15 @@ func c10Sequence(c *Ctx, kind string, keys []string) {
 		if obs == "panic" {
 			c.mismatch(Mismatch{Kind: "spec", Backend: kind, Case: append(append([]string{}, r.Lines...), line), Impl: obs, Spec: "no panic", Finger: "c10:panic:" + opName + ":" + c10KeyClass(k)})
 			return
+		}
+		// keys that differ as byte strings name different objects: a key the bucket does not hold
+		// (it is not in the full listing taken just before) must not read as an object
+		if (opName == "get" || opName == "head") && (strings.HasPrefix(obs, "obj ") || strings.HasPrefix(obs, "hobj ")) {
+			if _, held := before.objs[b+"\x00"+k]; !held {
+				c.mismatch(Mismatch{Kind: "spec", Backend: kind, Case: append(append([]string{}, r.Lines...), line), Impl: trunc(obs, 80),
+					Spec: fmt.Sprintf("key %q is not among the bucket's keys: NoSuchKey (or a refusal)", k), Finger: "c10:phantom-key:" + c10KeyClass(k)})
+				return
+			}
 		}
 		// internals must not be addressable as buckets
 		if bucketOp != "" && !refused && (bucketOp == "_meta" || bucketOp == "." || bucketOp == ".." || bucketOp == "metadata" && false) {
